@@ -91,8 +91,8 @@ Section Roles.
       unfold default_or_raise, reduced; cbn [d_oneof d_rec maind andb];
       repeat break_match; cbn [snd dir_sig]; intros H; try discriminate H; inversion H; subst; try discriminate; try assumption;
       try (intros E; inversion E; subst; apply Hnc; reflexivity);
-      try (intros E; inversion E; subst; match goal with Hq : task_errors _ = XCancelled :: _ |- _ =>
-             apply (task_errors_not_cancelled st XCancelled); [rewrite Hq; left; reflexivity|reflexivity] end);
+      try (intros E; inversion E as [E']; match goal with Hq : task_errors _ = ?e :: ?r |- _ =>
+             apply (task_errors_not_cancelled st (pick_error P e r)); [rewrite Hq; apply pick_error_in|exact E'] end);
       try match goal with Hq : dep_error _ _ _ _ = Some _ |- _ => rewrite (plain_dep_error P _ _ _ Hst') in Hq; discriminate Hq end;
       try (intros E; inversion E; subst; match goal with Hq : is_Exception XCancelled = true |- _ => discriminate Hq end).
   Qed.
